@@ -74,6 +74,14 @@ should_fail(size_t sz)
 	if (!A.faults_on)
 		return false;
 	if (A.fail_k > 0 && A.count == A.fail_k) {
+		if (getenv("SIM_TRACE_FAULT") != NULL) {
+			void *fr[NFRAMES];
+			walk(fr);
+			fprintf(stderr, "FAULT alloc #%lld size %zu at", (long long) A.count, sz);
+			for (int k = 0; k < NFRAMES && fr[k]; k++)
+				fprintf(stderr, " %p", fr[k]);
+			fprintf(stderr, "\n");
+		}
 		A.fault_hit++;
 		A.fault_seq  = A.count;
 		A.fault_size = sz;
